@@ -186,3 +186,65 @@ def max_intermediate(n):
     if isinstance(n, Neg):
         return max_intermediate(n.a)
     return max(abs(evaluate(n)), max_intermediate(n.a), max_intermediate(n.b))
+
+
+def host_value_32bit(n):
+    """Value a host language with C-like precedence and 32-bit int arithmetic computes from the minimal rendering,
+    or None when that evaluation leaves the range where C++ constant expressions are defined (shift count >= 31,
+    intermediate >= 2**31, negative operand of a shift)."""
+    import ast
+    import random
+    import re
+    env = {}
+
+    def collect(x):
+        if isinstance(x, Name):
+            env[x.name] = x.value
+        elif isinstance(x, Neg):
+            collect(x.a)
+        elif isinstance(x, Bin):
+            collect(x.a)
+            collect(x.b)
+    collect(n)
+    txt = render(n, random.Random(0), 0.0)
+    txt = re.sub(r'\b0([0-7]+)\b', r'0o\1', txt).replace('/', '//')
+
+    def ev(a):
+        if isinstance(a, ast.Expression):
+            return ev(a.body)
+        if isinstance(a, ast.Constant):
+            v = a.value
+        elif isinstance(a, ast.Name):
+            v = env[a.id]
+        elif isinstance(a, ast.UnaryOp):
+            x = ev(a.operand)
+            v = None if x is None else -x
+        elif isinstance(a, ast.BinOp):
+            x, y = ev(a.left), ev(a.right)
+            if x is None or y is None:
+                return None
+            if isinstance(a.op, ast.Add):
+                v = x + y
+            elif isinstance(a.op, ast.Sub):
+                v = x - y
+            elif isinstance(a.op, ast.Mult):
+                v = x * y
+            elif isinstance(a.op, ast.FloorDiv):
+                if x < 0 or y <= 0:
+                    return None
+                v = x // y
+            elif isinstance(a.op, (ast.LShift, ast.RShift)):
+                if x < 0 or y < 0 or y >= 31:
+                    return None
+                v = x << y if isinstance(a.op, ast.LShift) else x >> y
+            else:
+                return None
+        else:
+            return None
+        if v is None or abs(v) >= (1 << 31):
+            return None
+        return v
+    try:
+        return ev(ast.parse(txt, mode='eval'))
+    except Exception:  # noqa
+        return None
